@@ -3,7 +3,9 @@ package c16
 import (
 	"context"
 	"fmt"
+	"sort"
 	"strings"
+	"sync"
 
 	"github.com/cloudwego/eino/callbacks"
 	"github.com/cloudwego/eino/compose"
@@ -42,7 +44,11 @@ func resumeCase(ctx context.Context, rep *mon.Reporter, rng *mon.Rand, spec *gsp
 			return
 		}
 		wit := map[string]any{"spec": ps, "plan": plan.String(), "call": call, "options": os}
+		_, interrupted := compose.ExtractInterruptInfo(out.Err)
 		for _, e := range execs {
+			if out.Failed() && !interrupted && len(e.Opts) == 0 && !e.InOK && !e.Done && e.EndSeq == 0 {
+				continue // stopped by a designated step limit while this body was being entered: its options are not recorded yet
+			}
 			want, got := exp[e.Path], e.Opts
 			if strings.Join(want, ",") != strings.Join(got, ",") {
 				when := "first-call"
@@ -94,5 +100,308 @@ func unknownCallbackTarget(ctx context.Context, rep *mon.Reporter, rng *mon.Rand
 			rep.Violation(ID+"/invalid-designation-accepted/callbacks-to-unknown-node/"+c.kind, fmt.Sprintf("WithCallbacks(h) designated to %v (no such node) was accepted and the run returned %s", c.path, gspec.Canon(res.out.Out)), map[string]any{"spec": spec, "path": c.path})
 			return
 		}
+	}
+}
+
+// ---------------------------------------------------------------- graph-run options designated to nested graphs
+
+// stateModGenOpts: deep nesting (<=3) with many stateful graphs: an interrupt inside a nested graph then leaves
+// a chain (and, with two points, siblings) of graphs whose states are restored on resume.
+func stateModGenOpts(cfg mon.Config, mode gspec.Mode) gspec.GenOpts {
+	return gspec.GenOpts{
+		Mode: mode, MinNodes: 2, MaxNodes: cfg.Pick(5, 6),
+		Branches: 0.15, Multi: 0.5,
+		Nest: 3, NestProb: 0.45, State: 0.6, SubState: 0.7,
+		Streamy: false, Passthrough: 0.1, Wide: 0.1,
+		CtrlOnly: 0.2, DataOnly: 0.2, Fields: 0.3,
+		SubModes: []gspec.Mode{gspec.DAG, gspec.Workflow, gspec.Pregel},
+	}
+}
+
+type modCall struct {
+	Path  string `json:"path"`  // node path the modifier was called for ("" = the top-level graph)
+	Graph string `json:"graph"` // name of the graph the state object belongs to ("?": not a *gspec.St)
+}
+
+func keyOf(p []string) string { return strings.Join(p, "/") }
+
+// statefulPaths: the graphs of an interrupt (paths of graph-node keys, "" = top level) that carry a state:
+// these are the states a resume restores.
+func statefulPaths(info *compose.InterruptInfo, prefix []string, out map[string]*gspec.St) {
+	if info == nil {
+		return
+	}
+	if st, ok := info.State.(*gspec.St); ok && st != nil {
+		out[keyOf(prefix)] = st
+	}
+	for _, k := range mon.SortedKeys(info.SubGraphs) {
+		statefulPaths(info.SubGraphs[k], append(append([]string(nil), prefix...), k), out)
+	}
+}
+
+const modDelta = 1000000
+
+// designatedStateModifierCase: "an option designated to a node or node path reaches only that node" for the
+// options of a graph run itself. On a call that resumes an interrupt inside nested graphs, a
+// WithStateModifier designated (DesignateNode / DesignateNodeWithPath, 1-3 paths) to nested graphs must be
+// called for exactly the designated graphs whose state the call restores, with that graph's node path and
+// that graph's state object - never for the top-level graph, an enclosing graph, a graph nested in the
+// designated one, or a sibling; and only the designated graphs' states carry the modification afterwards.
+// A checkpoint id designated to a node is not the checkpoint id of the graph the call is made on.
+func designatedStateModifierCase(ctx context.Context, rep *mon.Reporter, rng *mon.Rand, cfg mon.Config) {
+	var spec *gspec.GraphSpec
+	var plan gspec.Plan
+	var inv []nodeInfo
+	for try := 0; try < 6 && plan == nil; try++ {
+		spec = gspec.Gen(rng, stateModGenOpts(cfg, gspec.Mode(rng.Intn(3))))
+		var stateful map[string]bool
+		stateful = map[string]bool{}
+		var walk func(g *gspec.GraphSpec)
+		walk = func(g *gspec.GraphSpec) {
+			if g.State && g.Name != "" {
+				stateful[g.Name] = true
+			}
+			for i := range g.Nodes {
+				if g.Nodes[i].Sub != nil {
+					walk(g.Nodes[i].Sub)
+				}
+			}
+		}
+		walk(spec)
+		// interrupt points inside nested graphs that are stateful or lie below a stateful nested graph
+		var cands []gspec.IntPoint
+		for _, p := range gspec.AllPoints(spec) {
+			if p.Graph == "" {
+				continue
+			}
+			parts := strings.Split(p.Graph, "/")
+			for d := 1; d <= len(parts); d++ {
+				if stateful[strings.Join(parts[:d], "/")] {
+					cands = append(cands, p)
+					break
+				}
+			}
+		}
+		if len(cands) == 0 {
+			continue
+		}
+		// prefer deep points
+		sort.SliceStable(cands, func(i, j int) bool { return strings.Count(cands[i].Graph, "/") > strings.Count(cands[j].Graph, "/") })
+		first := cands[rng.Intn(1+rng.Intn(len(cands)))]
+		plan = gspec.Plan{first}
+		if rng.Prob(0.5) {
+			if second := cands[rng.Intn(len(cands))]; second != first {
+				plan = append(plan, second)
+			}
+		}
+		inv = nil
+		inventory(spec, nil, &inv)
+	}
+	if plan == nil {
+		return
+	}
+	in := gspec.V{"in": rng.Str(1, 5)}
+	if ref := gspec.EvalGraph(spec, in, nil); ref.Err != "" {
+		return
+	}
+	ps := gspec.ApplyPlan(spec, plan)
+	store := gspec.NewByteStore()
+	r, err := gspec.Build(ctx, ps, gspec.BuildOpts{Store: store})
+	if err != nil {
+		rep.Violation(ID+"/build-error/with-interrupts", err.Error(), ps)
+		return
+	}
+	var subs, others []nodeInfo
+	for _, n := range inv {
+		if n.kind == gspec.Sub {
+			subs = append(subs, n)
+		} else {
+			others = append(others, n)
+		}
+	}
+	wit := map[string]any{"spec": ps, "plan": plan.String(), "input": in}
+
+	// ---- a checkpoint id designated to a nested graph is not the id of this run
+	if rng.Prob(0.25) && len(subs) > 0 {
+		t := subs[rng.Intn(len(subs))]
+		s0, g0 := store.Counts()
+		res := doCall(ctx, r, in, []compose.Option{compose.WithCheckPointID("cp").DesignateNodeWithPath(compose.NewNodePath(t.path...))})
+		s1, g1 := store.Counts()
+		rep.AddEvaluations(1)
+		rep.Count("designated_checkpoint_id_calls", 1)
+		if s1 != s0 || g1 != g0 {
+			rep.Violation(ID+"/designated-checkpoint-id/used-by-the-top-level-graph", fmt.Sprintf("WithCheckPointID designated to the nested graph %v (and no id for the run itself): the top-level graph accessed its store under it (%d Set, %d Get); the call returned %v", t.path, s1-s0, g1-g0, res.out.Err), wit)
+			return
+		}
+	}
+
+	para := []string{"I", "S"}[rng.Intn(2)] // one form per history (what a resume in another form restores is C05's business)
+	modified := map[int64]bool{}            // serial of a state object that a designated modifier has modified
+	serialPath := map[int64]string{}
+	var prevInfo *compose.InterruptInfo
+	for call := 0; call < 7; call++ {
+		opts := []compose.Option{compose.WithCheckPointID("cp")}
+		var designated [][]string
+		var mu sync.Mutex
+		var calls []modCall
+		restored := map[string]*gspec.St{}
+		how := ""
+		if call > 0 {
+			statefulPaths(prevInfo, nil, restored)
+			var restoredNested []string
+			for _, k := range mon.SortedKeys(restored) {
+				if k != "" {
+					restoredNested = append(restoredNested, k)
+				}
+				serialPath[restored[k].Serial] = k
+			}
+			// 1-3 designated graphs: mostly graphs whose state this call restores, also other nested graphs
+			// (not interrupted, stateless, siblings)
+			seen := map[string]bool{}
+			for i, n := 0, 1+rng.Intn(3); i < n; i++ {
+				var p []string
+				if len(restoredNested) > 0 && rng.Prob(0.7) {
+					p = strings.Split(restoredNested[rng.Intn(len(restoredNested))], "/")
+				} else if len(subs) > 0 {
+					p = subs[rng.Intn(len(subs))].path
+				}
+				if p != nil && !seen[keyOf(p)] {
+					seen[keyOf(p)] = true
+					designated = append(designated, p)
+				}
+			}
+			if len(designated) > 0 {
+				f := func(_ context.Context, path compose.NodePath, state any) error {
+					c := modCall{Path: keyOf(path.GetPath()), Graph: "?"}
+					if st, ok := state.(*gspec.St); ok && st != nil {
+						c.Graph = st.Graph
+						st.Counter += modDelta
+					}
+					mu.Lock()
+					calls = append(calls, c)
+					mu.Unlock()
+					return nil
+				}
+				allTop := true
+				var nps []*compose.NodePath
+				var keys []string
+				for _, p := range designated {
+					if len(p) != 1 {
+						allTop = false
+					}
+					nps = append(nps, compose.NewNodePath(p...))
+					keys = append(keys, p[0])
+				}
+				o := compose.WithStateModifier(f)
+				switch {
+				case allTop && rng.Bool():
+					o, how = o.DesignateNode(keys...), "DesignateNode"
+				case rng.Bool():
+					o, how = o.DesignateNodeWithPath(nps...), "DesignateNodeWithPath"
+				default:
+					how = "DesignateNodeWithPath, one call per path"
+					for _, np := range nps {
+						o = o.DesignateNodeWithPath(np)
+					}
+				}
+				if rng.Bool() {
+					opts = append(opts, o)
+				} else {
+					opts = append([]compose.Option{o}, opts...)
+				}
+			}
+		}
+		ctl := gspec.NewCtl("c")
+		out := gspec.Call(gspec.WithCtl(ctx, ctl), r, para, in, 0, -1, opts...)
+		rep.AddEvaluations(1)
+		_, _, _, states := ctl.Log.Snapshot()
+		info, isInt := compose.ExtractInterruptInfo(out.Err)
+		if out.Failed() && !isInt {
+			if call > 0 && len(designated) > 0 {
+				rep.Violation(ID+"/designated-state-modifier/resume-failed", fmt.Sprintf("call %d resumes with a state modifier designated (%s) to the nested graphs %v and failed: %v panic=%v", call, how, designated, out.Err, out.Panic), wit)
+			}
+			return
+		}
+		if call > 0 && len(designated) > 0 {
+			rep.Count("resumes_with_designated_state_modifier", 1)
+			w := map[string]any{"spec": ps, "plan": plan.String(), "input": in, "resume_call": call, "designated": designated, "how": how, "modifier_calls": calls, "restored_states_of": mon.SortedKeys(restored)}
+			desc := fmt.Sprintf("call %d resumes the interrupt %s; WithStateModifier designated (%s) to %v; the modifier was called for %+v; graphs whose state the call restores: %v", call, gspec.RenderInfo(prevInfo), how, designated, calls, mon.SortedKeys(restored))
+			dset := map[string]bool{}
+			for _, p := range designated {
+				dset[keyOf(p)] = true
+			}
+			count := map[string]int{}
+			mu.Lock()
+			cs := append([]modCall(nil), calls...)
+			mu.Unlock()
+			for _, c := range cs {
+				count[c.Path]++
+				if !dset[c.Path] {
+					encl, nested := false, false
+					for d := range dset {
+						encl = encl || strings.HasPrefix(d, c.Path+"/")
+						nested = nested || strings.HasPrefix(c.Path, d+"/")
+					}
+					cl := "a-sibling-graph"
+					switch {
+					case c.Path == "":
+						cl = "the-top-level-graph"
+					case encl:
+						cl = "a-graph-enclosing-the-designated-one"
+					case nested:
+						cl = "a-graph-nested-in-the-designated-one"
+					}
+					rep.Violation(ID+"/designated-state-modifier/called-for-"+cl, desc, w)
+					return
+				}
+				if c.Graph != c.Path {
+					rep.Violation(ID+"/designated-state-modifier/handed-the-state-of-another-graph", desc+fmt.Sprintf("\ncalled for node path %q with the state object of graph %q", c.Path, c.Graph), w)
+					return
+				}
+			}
+			for _, k := range mon.SortedKeys(dset) {
+				_, isRestored := restored[k]
+				switch {
+				case isRestored && count[k] == 0:
+					rep.Violation(ID+"/designated-state-modifier/not-called-for-the-designated-graph", desc, w)
+					return
+				case count[k] > 1:
+					rep.Violation(ID+"/designated-state-modifier/called-more-than-once-for-one-graph", desc, w)
+					return
+				case isRestored:
+					modified[restored[k].Serial] = true
+					rep.Count("designated_state_modifier_calls_checked", 1)
+					rep.Count(fmt.Sprintf("designated_state_modifier_depth_%d", strings.Count(k, "/")+1), 1)
+				}
+			}
+			if len(restored) > len(cs) {
+				rep.Count("restored_states_left_alone_checked", int64(len(restored)-len(cs)))
+			}
+			// what the state handlers of this call see: only the designated graphs' states are modified
+			for _, ev := range states {
+				pth, known := serialPath[ev.Serial]
+				if !known || ev.Kind == "gen" {
+					continue
+				}
+				isMod := ev.Val >= modDelta
+				if isMod != modified[ev.Serial] {
+					cl := "state-of-designated-graph-not-modified"
+					if isMod {
+						cl = "state-of-another-graph-modified"
+						if pth == "" {
+							cl = "state-of-the-top-level-graph-modified"
+						}
+					}
+					rep.Violation(ID+"/designated-state-modifier/"+cl, desc+fmt.Sprintf("\nstate handler %s of node %s (graph %q) saw the counter %d", ev.Kind, ev.Node, pth, ev.Val), w)
+					return
+				}
+				rep.Count("state_values_after_designated_modifier_checked", 1)
+			}
+			rep.NonTrivial(fmt.Sprintf("statemod|%s|%s|%d|%v", spec.Digest(), plan, call, designated))
+		}
+		if !isInt {
+			return
+		}
+		prevInfo = info
 	}
 }
